@@ -86,9 +86,10 @@ type outcome struct {
 	coq      string
 	finalTip int
 
-	naturalFired bool
-	known        []failure // known-finding observations (the history goes on)
-	knownStream  int
+	naturalFired  bool
+	boundsChecked int
+	known         []failure // known-finding observations (the history goes on)
+	knownStream   int
 }
 
 func encState(n *chaingen.Node) []byte { return mgrsim.EncState(n.FullState) }
@@ -207,6 +208,9 @@ func runCase(t *chaingen.Tree, cs Case, wantCoq bool) (o outcome) {
 	}
 	var dumps []string
 	var mcases []string
+	var bounds []string
+	boundsOK := cs.Sched == "all" && cs.NaturalAt == 0 && !stats.Trigger
+	seenStep := map[int]bool{}
 	fail := func(k int, kind, format string, a ...any) {
 		if o.fail == nil {
 			o.fail = &failure{kind, fmt.Sprintf(format, a...), k}
@@ -333,6 +337,20 @@ func runCase(t *chaingen.Tree, cs Case, wantCoq bool) (o outcome) {
 		var first mgrsim.Obs
 		sim.Observe(&first)
 		ro.known, ro.best = first.Known, first.Best
+		if boundsOK && !seenStep[im.Step] {
+			seenStep[im.Step] = true
+			var ks, best []string
+			for _, e := range ro.known {
+				ks = append(ks, fmt.Sprintf("(%d, (%d, %v, %v))", e.ID, e.State, e.Body, e.Supp))
+			}
+			for _, b := range ro.best {
+				if b < 0 {
+					b = 999999
+				}
+				best = append(best, fmt.Sprint(b))
+			}
+			bounds = append(bounds, fmt.Sprintf("([%s], [%s])", strings.Join(ks, "; "), strings.Join(best, "; ")))
+		}
 		for _, op := range cs.Plan {
 			obs := nd2.DoObserved(op)
 			ro.hist = append(ro.hist, obs)
@@ -389,7 +407,24 @@ func runCase(t *chaingen.Tree, cs Case, wantCoq bool) (o outcome) {
 		}
 	}
 	if wantCoq && o.fail == nil {
-		o.coq = coqCase(nd, rec, dumps, mcases)
+		// the boundaries check needs every step's image (none skipped, none judged a known finding)
+		if !boundsOK || len(o.known) > 0 || o.skipped > 0 || len(bounds) != len(nd.Steps) {
+			bounds = nil
+		}
+		var ops []string
+		if bounds != nil {
+			for _, op := range cs.Plan {
+				ops = append(ops, qualify(mgrsim.CoqOp(t, op)))
+			}
+		}
+		univ := "[]"
+		if bounds != nil {
+			univ = qualify(mgrsim.CoqUniverse(t))
+		}
+		o.coq = coqCase(nd, rec, dumps, mcases) + fmt.Sprintf("\n %s\n [%s]\n [%s]", univ, strings.Join(ops, "; "), strings.Join(bounds, ";\n  "))
+		if bounds != nil {
+			o.boundsChecked = len(bounds)
+		}
 	}
 	return
 }
@@ -528,6 +563,7 @@ func run(c *hx.Ctx) {
 		res.CountN("images-skipped-after-expiry-order-trigger", o.skipped)
 		res.CountN("catch-ups-ending-elsewhere-without-separation", o.unsep)
 		res.CountN("catch-ups-in-the-expiry-order-finding-stream", o.knownStream)
+		res.CountN("images-compared-with-the-manager-model's-block-boundaries", o.boundsChecked)
 		if len(o.known) > 0 {
 			kf := o.known[0]
 			res.Fail(kf.kind, kf.detail, map[string]any{"case": cs, "tree": describe(t), "image": kf.image, "steps": describeSteps(o.nd, o.rec)})
